@@ -36,8 +36,11 @@ Theorem C02_matmul_constructor l r m :
 Proof. exact (mk_matmul_correct l r m). Qed.
 
 (* matmul with an operator right-hand side, including the structured results of Diag / ConstantDiag / Identity / Zero /
-   KroneckerProductDiag left operands (Dense, Diag, Triangular results) — every class pair of the model except the
-   BlockDiag / Interpolated overrides.  [safe_matmul] excludes the recorded defect C02-zero-matmul-drops-batch. *)
+   KroneckerProductDiag left operands (Dense, Diag, Triangular results), and the three BlockDiag fast paths
+   ( BlockDiag @ BlockDiag block by block when the base shapes agree, Diag-class @ BlockDiag and BlockDiag @ Diag-class with
+   the diagonal cut into one diagonal per block by .view ), recursively through nested bases — every class pair of the
+   model except the Interpolated override.  [safe_matmul] excludes the recorded defect C02-zero-matmul-drops-batch
+   (recursively, since the block fast paths call matmul on the bases). *)
 Theorem C02_matmul_partial e o r :
   wf e -> wf o -> cols e = rows o -> safe_matmul e o = true -> alg_matmul e o = Ok r ->
   denote r == dmm (denote e) (denote o).
@@ -95,12 +98,27 @@ Theorem C02_permute_partial e perm r :
   denote r == dpermute (denote e) perm.
 Proof. exact (alg_permute_correct e perm r). Qed.
 
-(* _sum_batch (sum over a batch dimension) for the classes that override it: Dense, Diag, ConstantDiag, Identity (->
-   ConstantDiag), Zero, Triangular, the Sum family mapped over its summands (the base class builds a SumBatchLinearOperator:
-   not modelled; KroneckerProductDiag raises: finding C02-krondiag-sum-batch) *)
+(* _sum_batch (sum over a batch dimension): the overrides of Dense, Diag, ConstantDiag, Identity (-> ConstantDiag), Zero,
+   Triangular and the Sum family (mapped over the summands; correct BECAUSE the Sum constructors expand every summand to the
+   common batch shape, see C02_sum_batch_needs_expansion) for every batch position [sumb_own]; the base class
+   (SumBatchLinearOperator over the operator, any class) when the summed dimension is the last batch dimension (p = 0; for the
+   other positions the Block constructor first permutes the batch: model + correspondence only).  KroneckerProductDiag raises:
+   finding C02-krondiag-sum-batch. *)
 Theorem C02_sum_batch_partial e p r :
-  wf e -> (p < length (batch e))%nat -> alg_sum_batch e p = Ok r -> denote r == dsumdim (denote e) p.
+  wf e -> (p < length (batch e))%nat -> (sumb_own e = true \/ p = 0%nat) ->
+  alg_sum_batch e p = Ok r -> denote r == dsumdim (denote e) p.
 Proof. exact (alg_sum_batch_correct e p r). Qed.
+
+(* why SumLinearOperator.__init__ must expand its operands: mapping _sum_batch over UNEXPANDED summands (batch shapes (3) and (1):
+   an object the constructors never build, [wfb] rejects it) counts the size-1 summand once instead of three times.  A finite
+   witness, checked by computation. *)
+Theorem C02_sum_batch_needs_expansion :
+  exists ops r, wfb (SumC KSum ops) = false /\ alg_sum_batch (SumC KSum ops) 0 = Ok r /\
+                ent (denote r) [] 0%nat 0%nat <> ent (dsumdim (denote (SumC KSum ops)) 0) [] 0%nat 0%nat.
+Proof.
+  exists [Dense (dones [3%nat] 1 1); Dense (dones [1%nat] 1 1)]. eexists. split; [reflexivity|]. split; [reflexivity|].
+  vm_compute. discriminate.
+Qed.
 
 (* add_jitter / add_diagonal with a 0-d diagonal, every override of the model (base -> AddedDiag with a ConstantDiag, Diag
    family, Triangular, the three added-diagonal classes, Kronecker -> KroneckerProductAddedDiag, LowRankRoot ->
